@@ -5,8 +5,8 @@ reachable from the exported API) from C.REPO before every build; Properties/C09.
 vm_compute) and states the soundness of the checker (Proofs/HeapP.v).
 Dynamic side (this file): the observed footprint of EVERY exported function, over every documented flag combination,
 C / F / strided layouts, list vs array index arguments and callbacks that return their argument, must lie within what
-the skeleton predicts; plus write-after-return probes.  It validates the translator's fresh / view tables and is the
-failing-input search."""
+the skeleton predicts; plus write-after-return probes; plus direct calls of every library routine the translation
+classified as fresh.  It validates the translator's fresh / view tables and is the failing-input search."""
 import ast
 import inspect
 import io
@@ -22,30 +22,51 @@ from harness import skeleton_c09 as SK
 THEOREMS = 'Properties/C09.v'
 TIME_LIMIT = {'quick': 1200, 'thorough': 5400}
 CLAIM = dict(
-    text='For every exported function of teneva (every documented flag combination; specialised variants are '
-         'regenerated from the source on every run) a verified checker validates an alias-analysis certificate '
-         '(C09_api_clean, vm_compute); C09_check_sound proves in Coq, for every heap, every memory layout (identity = '
-         'buffer), every execution of the relational semantics including calls to any depth, that a checked function '
-         'changes no object reachable from an argument and returns nothing reachable from an argument, except as its '
-         'summary says; the summaries of the exported functions are within the exception table of Model/Heap.v '
-         '(orthogonalize_left/right inplace=True, info / cache, grid_prep_opt(s), core_stab).',
-    note='Trusted: the translator harness/skeleton_c09.py (classification of NumPy / SciPy / builtin calls as fresh / '
-         'view / in-place, rules 1-7 of its docstring, standing precondition d >= 2 for `range(1, d)` / `Y[1:]` loops); '
-         'it is validated on every run by the dynamic footprint of all exported functions (C / F / strided layouts, '
-         'lists vs arrays, identity callbacks). Result objects that a function also stores into the info / cache '
-         'dictionaries are outside the theorem and covered dynamically only. Exported classes (ANOVA, ANOVA_func) and '
-         'underscore helpers are analysed as callees only.',
-    technique='Coq: verified certificate checker over a regenerated effect skeleton (translator route) + dynamic '
-              'footprint harness')
+    text='Proved in Coq (axiom-free, "Closed under the global context"), for EVERY program of the effect-skeleton IR, every '
+         'closed heap (object identity = memory buffer, so every layout / view / stride), every argument list and every '
+         'execution of the relational semantics with calls to any depth: a function of a program that passes the certificate '
+         'checker meets the meaning of its summary (C09_check_sound, full): objects of the caller\'s heap keep data, shape '
+         'and element list unless reachable from a parameter listed as written, and everything the result reaches afterwards '
+         'did not exist before the call unless it was reachable from a parameter listed as escaping / stored. Consequences, '
+         'generic: C09_clean_writes, C09_clean_result, C09_separate_disjoint (summaries within the exception table), '
+         'C09_pure_unchanged, C09_pure_result_new, C09_pure_disjoint (empty summary: result and arguments share no object). '
+         'For teneva as it is now: the skeleton + certificate of every function variant reachable from the 96 exported '
+         'functions is regenerated from the source on every run, C09_api_clean re-checks it by vm_compute (all certificates '
+         'valid, every exported summary within the exception table of Model/Heap.v: orthogonalize_left/right inplace=True, '
+         'info / cache, grid_prep_opt(s), core_stab, methods on self), and C09_teneva_no_mutation, C09_teneva_no_alias, '
+         'C09_teneva_separate_unchanged, C09_teneva_disjoint instantiate the theorems on it: no exported function changes an '
+         'argument, and no object is reachable both from its result and from a non-exempt argument afterwards. Non-vacuity: '
+         'the semantics has mutating / aliasing executions and the checker rejects those skeletons (C09_ex_*).',
+    note='The theorems speak about the regenerated skeletons; that a skeleton describes the Python function is NOT proved: '
+         'the translator harness/skeleton_c09.py is trusted (classification of NumPy / SciPy / builtin calls as fresh / view '
+         '/ in-place, overwrite_a/b operands written and handed back, rules 1-7 of its docstring; rule 6: a callback is an '
+         'object, writes none of its arguments, and what it returns may reference its arguments or its own closure; rule 2: '
+         'parameters that no Args entry documents stay at their default; rule 5: loops over range(1, d) / Y[1:] run at least '
+         'once, d >= 2). It is validated numerically on every run by the dynamic footprint of all 96 exported functions '
+         '(byte snapshots, np.shares_memory, container identity, write-after-return probes; C / F / strided layouts, lists '
+         'vs arrays, callbacks returning a view of their argument or of their own buffer): every observed write / alias must '
+         'be allowed by the exception table and predicted by the skeleton; in addition every table entry the translation relied '
+         'on to call a library routine FRESH (new memory, operands untouched) is called directly on C / Fortran / strided / '
+         'size-1 operands and checked with np.shares_memory. Result objects that a function also stores into '
+         'the info / cache dictionaries are covered by the exception (info / cache may reach them). Exported classes (ANOVA, '
+         'ANOVA_func) and underscore helpers are analysed as callees only. Heap model: a view / slice / reshape of an array '
+         'is the same object as its base (conservative: two disjoint slices of one buffer count as aliased).',
+    technique='Coq: verified certificate checker over a regenerated effect skeleton (translator route, abstract '
+              'interpretation with allocation-site labelling, relational big-step semantics) + dynamic footprint harness')
 TRUSTED = ['Coq 8.16.1 kernel + vm_compute (closed boolean check of the regenerated skeletons)',
            'translator harness/skeleton_c09.py: Python ast -> IR of Model/Heap.v; its fresh / view / in-place tables '
            'for NumPy, SciPy, builtins and rules 1-7 (validated by the dynamic footprint on every run)',
            'heap model of Model/Heap.v: object identity = memory buffer (views, slices, reshapes are the same object); '
-           'lists / dicts / object arrays / instances / closures are objects holding references',
-           'user callbacks write none of their arguments (rule 6)',
+           'lists / dicts / object arrays / instances / closures are objects holding references; only declared parameters '
+           'are bound at entry',
+           'user callbacks write none of their arguments; their results reference only what is reachable from their '
+           'arguments or from the callback object itself (rule 6, ECallback = callspec with esc = all operands)',
            'mutable default arguments (info={}, cache={}) are treated as the argument they stand for']
 ASSUMPTIONS = ['d >= 2 (loops over range(1, d) and Y[1:] run at least once)',
-               'documented argument combinations only: undocumented parameters at their defaults (rule 2)']
+               'documented argument combinations only: parameters no Args entry documents stay at their defaults (rule 2); '
+               'for the five exported functions without an Args section (core_dot, core_dot_inv, core_dot_maxvol, '
+               'core_qr_rand, func_diff_matrix_apply) the boolean flags are ranged over, the other defaults are kept',
+               'the caller\'s heap is closed (no dangling reference) and the arguments are allocated in it']
 
 GEN_FILE = os.path.join(C.COQ, 'Gen', 'SkelC09.v')
 _GEN = {}
@@ -204,7 +225,7 @@ def ident(x):
     return x
 
 
-def recipes(tn, E):
+def recipes(tn, E, only=None):
     """name -> list of (label, args, kwargs).  Every exported function of teneva/__init__.py has an entry here
     (uncovered names are reported in the evidence)."""
     n3 = [3, 4, 3]
@@ -224,7 +245,8 @@ def recipes(tn, E):
     R = {}
 
     def add(name, label, *args, **kw):
-        R.setdefault(name, []).append((label, list(args), kw))
+        if only is None or name == only:
+            R.setdefault(name, []).append((label, list(args), kw))
     add('add_many', 'tensors', [Y, Y2, E.tt(n3, 1, 7)])
     add('add_many', 'with number', [Y, 2.5, Y2], e=1e-8, r=3, trunc_freq=1)
     add('outer_many', 'three', [Y, Y2, Yq])
@@ -264,7 +286,10 @@ def recipes(tn, E):
             for us in (False, True):
                 kw = dict(nswp=2, info={}, allow_swap=asw, allow_skip_cores=ask, use_stab=us,
                           I_vld=E.arr(Iall[::3]), y_vld=E.arr(yall[::3]))
-                if asw or us:
+                if asw and us:
+                    continue      # als(r=.., use_stab=True) raises AttributeError (orthogonalize returns a pair there):
+                                  # a teneva defect outside C09, reported to the lead
+                if asw:
                     kw['r'] = 3
                 add('als', f'swap={asw} skip={ask} stab={us}', E.idx(Iall), E.vec(yall), E.tt(n3, 2, 8), **kw)
     add('als', 'w, cb, lamb None', E.arr(Iall), E.arr(yall), E.tt(n3, 2, 8), nswp=2, info={}, w=E.arr(np.ones(len(yall))),
@@ -286,7 +311,7 @@ def recipes(tn, E):
         add('core_dot_inv', f'ltr={ltr}', G, Rm, ltr=ltr)
         add('core_dot_maxvol', f'ltr={ltr}', G, Rm, ltr=ltr)
         add('core_qr_rand', f'ltr={ltr}', G, 1, ltr=ltr, seed=3)
-    add('core_dot', 'number', G, 2.)
+    add('core_dot', 'number', E.arr(rs.randint(-3, 4, size=(2, 3, 1)).astype(float)), 2.)
     add('core_qtt_to_tt', 'two cores', [E.arr(rs.rand(1, 2, 2)), E.arr(rs.rand(2, 2, 3))])
     add('core_qtt_to_tt', 'one core', [E.arr(rs.rand(2, 2, 3))])
     add('core_stab', 'scaled', E.arr(rs.rand(2, 3, 2) * 100))
@@ -430,6 +455,37 @@ def recipes(tn, E):
                 add('truncate', f'orth={orth} stab={us} eigh={ie}', tn.add(Y, Y) if False else E.tt(n3, 3, 24), 1e-2, 2,
                     orth, us, ie)
     add('vector_delta', 'plain', 3, 5, 2.)
+    # degenerate shapes: d = 2, TT-rank 1, modes of size 1 (NumPy hands out views more readily for size-1 / contiguous data:
+    # reshape, squeeze, ascontiguousarray, asanyarray are the layout-dependent entries of the translator's tables)
+    Yd, Yd_ = E.tt([2, 3], 1, 30), E.tt([2, 3], 1, 31)
+    Ym1, Ym1_ = E.tt([1, 3, 1], 2, 32), E.tt([1, 3, 1], 2, 33)
+    Y11 = E.tt([1, 1], 1, 34)
+    for tag, A_, B_, i_ in (('d=2 r=1', Yd, Yd_, [1, 2]), ('modes of size 1', Ym1, Ym1_, [0, 2, 0]), ('1 x 1', Y11, E.tt([1, 1], 1, 35), [0, 0])):
+        for nm in ('add', 'mul', 'sub', 'outer', 'mul_scalar', 'accuracy'):
+            add(nm, tag, A_, B_)
+        for nm in ('copy', 'full', 'sum', 'mean', 'norm', 'ranks', 'shape', 'size', 'erank', 'interface', 'orthogonalize'):
+            add(nm, tag, A_)
+        add('get', tag, A_, E.idx(i_))
+        add('get_many', tag, A_, E.idx([i_, i_]))
+        add('truncate', tag, A_, 1e-10)
+        add('truncate', tag + ' orth=False', A_, 1e-10, orth=False)
+        add('orthogonalize', tag + ' k=0', A_, 0)
+        add('orthogonalize_left', tag, A_, 0)
+        add('orthogonalize_right', tag, A_, len(A_) - 1)
+        add('add_many', tag, [A_, B_, A_])
+        add('optima_tt', tag, A_)
+    add('svd', '2 x 1', E.full([2, 1]))
+    add('svd', '1 x 1 x 1', E.full([1, 1, 1]))
+    add('svd', '1 x 3', E.full([1, 3]))
+    add('matrix_svd', '1 x 1', E.arr(np.array([[2.]])))
+    add('matrix_skeleton', '1 x 3', E.arr(np.array([[1., 2., 3.]])))
+    add('const', 'd=2 n=1', E.idx([1, 1]), 2.)
+    add('delta', 'd=2 n=1', E.idx([1, 1]), E.idx([0, 0]))
+    add('rand', 'd=2 n=1', E.idx([1, 1]), 1, seed=1)
+    add('rand_custom', 'd=2 n=1, view of own buffer', E.idx([1, 1]), 1, lambda sz: _buf[:sz])
+    add('sample', 'd=2', E.tt([2, 3], 1, 36, pos=True), 3, seed=2)
+    add('core_stab', '1 x 1 x 1', E.arr(np.array([[[4.]]])))
+    add('core_dot', '1 x 1 x 1', E.arr(np.array([[[4.]]])), E.arr(np.array([[2.]])))
     add('getter', 'numba', Y)
     return R
 
@@ -438,19 +494,28 @@ def recipes(tn, E):
 # footprint of one call
 # ----------------------------------------------------------------------------------------------------------------
 def predicted(g, name, bound):
-    """(writes, escapes) the skeleton predicts for the variant matching the call; None if no variant matches"""
-    best = None
-    for r in _report(g):
-        if r['name'] != name:
-            continue
-        ok = True
+    """what the skeleton predicts for the call: the union over the variants compatible with the bound arguments.  A flag
+    that is specialised True / False but passed as None (func_get(skip_out=None) decides inside) is compatible with both;
+    a call that leaves the documented argument combinations (an undocumented parameter off its default, e.g.
+    func_int(kind='sin')) is compared with the union of all variants of the function.  None: no variant at all."""
+    rs = [r for r in _report(g) if r['name'] == name]
+    if not rs:
+        return None
+
+    def compatible(r):
         for k, v in r['flags'].items():
-            if k in bound and str(bound[k]) != v and not (callable(bound[k]) and v == '<lambda-default>'):
-                ok = False
-        if ok:
-            best = r
-            break
-    return best
+            if k not in bound or bound[k] is None and v in ('True', 'False'):
+                continue
+            if callable(bound[k]) and v == '<lambda-default>':
+                continue
+            if str(bound[k]) != v:
+                return False
+        return True
+    sel = [r for r in rs if compatible(r)] or rs
+    out = dict(name=name, flags=sel[0]['flags'], variants=len(sel))
+    for key in ('writes', 'escapes', 'bad_writes', 'bad_escapes', 'unknown'):
+        out[key] = sorted({x for r in sel for x in r[key]})
+    return out
 
 
 def _report(g):
@@ -459,7 +524,7 @@ def _report(g):
     return _GEN['report']
 
 
-def run_case(tn, g, name, label, args, kw, probes=True):
+def run_case(tn, g, name, label, args, kw, probes=True, tolerant=False):
     """returns (list of violations, info dict)"""
     f = getattr(tn, name)
     try:
@@ -487,13 +552,29 @@ def run_case(tn, g, name, label, args, kw, probes=True):
     except Exception as e:
         if name == 'getter' and 'Numba' in str(e):
             return [], dict(skipped='numba is not installed')
-        return [dict(what=f'{name} [{label}] raised {e!r} (recipe problem, not a C09 failure)', recipe_error=True)], {}
+        # the call raised: the arguments must be intact all the same (an exception half-way must not leave a modified
+        # argument behind); for the fixed seed 1 a raising recipe is a harness problem, for the other seeds it is tolerated
+        ok_w = set(pred['writes']) - set(pred['bad_writes'])
+        viol = [dict(what=f'{name} [{label}] raised {type(e).__name__} and left its argument modified: {d}', param=k, kind='write')
+                for k in before for d in [snap_diff(before[k], snap(bound[k]), k)] if d and k not in ok_w]
+        if not tolerant:
+            viol.append(dict(what=f'{name} [{label}] raised {e!r} (recipe problem, not a C09 failure)', recipe_error=True))
+        return viol, dict(raised=type(e).__name__)
     viol = []
+    # what the exception table allows for this variant / what the skeleton predicts beyond it (then the static side flags
+    # the function too: the observed effect is a violation of the PROPERTY with a concrete input, predicted or not)
+    ok_writes = set(pred['writes']) - set(pred['bad_writes'])
+    ok_escapes = set(pred['escapes']) - set(pred['bad_escapes'])
+
+    def why(k, predicted_set):
+        return ('the skeleton flags it too' if k in predicted_set else
+                'NOT predicted by the skeleton: a classification table of the translator is wrong')
     # 1. arguments unchanged
     for k in before:
         d = snap_diff(before[k], snap(bound[k]), k)
-        if d and k not in pred['writes']:
-            viol.append(dict(what=f'{name} [{label}]: argument modified: {d}', param=k, kind='write'))
+        if d and k not in ok_writes:
+            viol.append(dict(what=f'{name} [{label}]: argument modified: {d} ({why(k, pred["writes"])})', param=k,
+                             kind='write'))
     # 2. no aliasing of results
     res_arr, res_cont = arrays_in(res)
     exempt_dicts = [bound[k] for k in ('info', 'cache') if k in passed and isinstance(bound.get(k), dict)]
@@ -509,8 +590,8 @@ def run_case(tn, g, name, label, args, kw, probes=True):
             for ac in arg_cont[k]:
                 if rc is ac:
                     hit = 'result container IS an argument container'
-        if hit and k not in pred['escapes']:
-            viol.append(dict(what=f'{name} [{label}]: {hit} {k}', param=k, kind='alias'))
+        if hit and k not in ok_escapes:
+            viol.append(dict(what=f'{name} [{label}]: {hit} {k} ({why(k, pred["escapes"])})', param=k, kind='alias'))
     for dct in exempt_dicts:
         da, _ = arrays_in(dct)
         for ra in res_arr:
@@ -520,12 +601,12 @@ def run_case(tn, g, name, label, args, kw, probes=True):
                                      kind='alias-info'))
     # 3. write-after-return probes
     if probes and not viol:
-        clean = [k for k in arg_arr if k not in pred['escapes'] and k not in ('info', 'cache')]
+        clean = [k for k in arg_arr if k not in ok_escapes and k not in ('info', 'cache')]
         s0 = {k: snap(bound[k]) for k in clean}
         for ra in res_arr:
             if ra.dtype != object and ra.flags.writeable and ra.size:
                 try:
-                    ra[...] = ra * 0 + (1 if ra.dtype.kind in 'iub' else 0.123)
+                    ra[...] = (1 if ra.dtype.kind in 'iub' else 0.123)
                 except Exception:
                     pass
         for rc in res_cont:
@@ -541,7 +622,7 @@ def run_case(tn, g, name, label, args, kw, probes=True):
             for k in clean:
                 for aa in arg_arr[k]:
                     if aa.dtype != object and aa.flags.writeable and aa.size:
-                        aa[...] = aa * 0 + (1 if aa.dtype.kind in 'iub' else 0.321)
+                        aa[...] = (1 if aa.dtype.kind in 'iub' else 0.321)
             d = snap_diff(rs0, snap(res), 'result')
             if d:
                 viol.append(dict(what=f'{name} [{label}]: writing into the arguments changed the {d}', kind='probe-arg'))
@@ -568,16 +649,20 @@ def footprint(R, ctx, names=None, seeds=(1,), probes=True):
             for name in sorted(rec):
                 if names and name not in names:
                     continue
-                # rebuild the inputs for every function: an earlier (faulty) call must not spoil later ones
-                with contextlib.redirect_stdout(io.StringIO()), warnings.catch_warnings():
-                    warnings.simplefilter('ignore')
-                    cases = recipes(tn, Env(tn, layout, aslist, seed))[name]
-                for label, args, kw in cases:
-                    viol, inf = run_case(tn, g, name, label, args, kw, probes)
+                for ci in range(len(rec[name])):
+                    # rebuild the inputs for every case: an earlier (faulty) call and the write-after-return probes
+                    # must not spoil later ones
+                    with contextlib.redirect_stdout(io.StringIO()), warnings.catch_warnings():
+                        warnings.simplefilter('ignore')
+                        label, args, kw = recipes(tn, Env(tn, layout, aslist, seed), only=name)[name][ci]
+                    viol, inf = run_case(tn, g, name, label, args, kw, probes, tolerant=(seed != 1))
                     ncalls += 1
                     if inf.get('skipped'):
                         skipped[name] = inf['skipped']
-                    covered.add(name)
+                    if inf.get('raised'):
+                        dist['raised'] = dist.get('raised', 0) + 1
+                    else:
+                        covered.add(name)
                     key = f'{layout}{"/lists" if aslist else ""}'
                     dist['layouts'][key] = dist['layouts'].get(key, 0) + 1
                     if R is not None:
@@ -588,6 +673,157 @@ def footprint(R, ctx, names=None, seeds=(1,), probes=True):
     dist['functions'] = len(covered)
     uncovered = [nm for nm in public if nm not in covered]
     return fails, recipe_errors, ncalls, dist, uncovered, skipped
+
+
+# ----------------------------------------------------------------------------------------------------------------
+# direct validation of the trusted classification tables
+# ----------------------------------------------------------------------------------------------------------------
+def _resolve(dotted):
+    """callable behind a dotted name as it appears in the teneva source"""
+    import importlib
+    special = {'lu': 'scipy.linalg.lu', 'solve_triangular': 'scipy.linalg.solve_triangular', 'dct': 'scipy.fft.dct',
+               'dst': 'scipy.fft.dst', 'contract': 'opt_einsum.contract'}
+    d = special.get(dotted, dotted)
+    parts = d.split('.')
+    parts[0] = {'np': 'numpy', 'sp': 'scipy'}.get(parts[0], parts[0])
+    for k in range(len(parts) - 1, 0, -1):
+        try:
+            obj = importlib.import_module('.'.join(parts[:k]))
+        except Exception:
+            continue
+        try:
+            for q in parts[k:]:
+                obj = getattr(obj, q)
+            return obj
+        except AttributeError:
+            continue
+    return None
+
+
+def _objs_in(x, out, seen, depth=0):
+    """every ndarray reachable from x: containers, object arrays, instance attributes (polynomials, generators)"""
+    if id(x) in seen or depth > 4:
+        return
+    seen.add(id(x))
+    if isinstance(x, np.ndarray):
+        out.append(x)
+        if x.dtype == object:
+            for y in x.ravel():
+                _objs_in(y, out, seen, depth + 1)
+    elif isinstance(x, (list, tuple, set)):
+        for y in x:
+            _objs_in(y, out, seen, depth + 1)
+    elif isinstance(x, dict):
+        for y in x.values():
+            _objs_in(y, out, seen, depth + 1)
+    elif hasattr(x, '__dict__') and not callable(x) and not isinstance(x, type):
+        for y in vars(x).values():
+            _objs_in(y, out, seen, depth + 1)
+
+
+def _probe_call(fn, cands):
+    """call fn on the first candidate argument tuples it accepts (up to 4); returns list of (label, problem or None)"""
+    done = []
+    for mk in cands:
+        args = mk()
+        ins = []
+        _objs_in(args, ins, set())
+        before = [(x, x.tobytes(), x.shape, x.strides) for x in ins if x.dtype != object]
+        try:
+            with warnings.catch_warnings(), np.errstate(all='ignore'), contextlib.redirect_stdout(io.StringIO()):
+                warnings.simplefilter('ignore')
+                res = fn(*args)
+        except Exception:
+            continue
+        outs = []
+        _objs_in(res, outs, set())
+        prob = None
+        for x, b, sh, st in before:
+            if x.tobytes() != b or x.shape != sh or x.strides != st:
+                prob = 'an operand was modified'
+        for r in outs:
+            for x in ins:
+                if r.dtype != object and x.dtype != object and r.size and x.size and np.shares_memory(r, x):
+                    prob = 'the result shares memory with an operand'
+        done.append((repr([getattr(a, 'shape', a) for a in args])[:80], prob))
+        if len(done) >= 4:
+            break
+    return done
+
+
+def table_probes(R, ctx):
+    """Every table entry of the translator that classifies a library call as FRESH (new memory, operands untouched) or as
+    yielding a value without identity, and that the translation of the current source relied on, is called directly on C /
+    Fortran / strided / size-1 operands: no result array may share memory with an operand, no operand may change.  View /
+    in-place entries are conservative and need no probe.  Entries no generic call pattern fits are listed as unprobed."""
+    g = gen()
+    tn = C.import_teneva()
+    bad, unprobed, nprobe = [], [], 0
+    spd = np.array([[4., 1., 0.5], [1., 3., 0.25], [0.5, 0.25, 2.]])
+    for kind, name in sorted(g.used):
+        ok_any = False
+        for layout in ('C', 'F', 'S', '1'):
+            E = Env(tn, layout if layout != '1' else 'C', False, 1)
+            if layout == '1':
+                def A(): return E.arr(np.array([[2.]]))
+                def V(): return E.arr(np.array([1.5]))
+                def IV(): return E.arr(np.array([0]))
+            else:
+                def A(): return E.arr(spd)
+                def V(): return E.arr(np.array([0.25, 0.5, 0.75]))
+                def IV(): return E.arr(np.array([0, 1, 2]))
+            sh = (1, 1) if layout == '1' else (3, 3)
+            cands = [lambda: (A(),), lambda: (A(), A()), lambda: (V(),), lambda: (V(), V()), lambda: (A(), V()),
+                     lambda: (A(), 2), lambda: (V(), 2), lambda: (A(), 0), lambda: (A(), 1), lambda: (IV(),),
+                     lambda: (IV(), sh[0] * sh[1]), lambda: ((IV(), IV()), sh), lambda: (IV(), sh),
+                     lambda: (A(), 0., 1.), lambda: (V(), V(), V()), lambda: ((A(), A()),), lambda: ([A(), A()],),
+                     lambda: ('ij,jk->ik', A(), A()), lambda: (A() > 1.,), lambda: (A(), (1, 0)), lambda: (A(), A(), 1),
+                     lambda: (3,), lambda: (sh,), lambda: (0., 1., 3)]
+            if kind in ('np-fresh', 'np-scalar'):
+                fn = _resolve(name)
+                if fn is None:
+                    continue
+                if isinstance(fn, np.ufunc):
+                    # a further positional array would be the `out` operand (the translator treats out= as an in-place write)
+                    cands = [lambda: (A(),) * fn.nin, lambda: (V(),) * fn.nin, lambda: (A(), 2)[:fn.nin]]
+                elif (getattr(fn, '__module__', '') or '').startswith('scipy.linalg'):
+                    # further positional parameters are the overwrite_a / overwrite_b switches (handled by the translator)
+                    cands = [lambda: (A(),), lambda: (A(), A()), lambda: (A(), V())]
+                elif name.split('.')[-1] in ('einsum', 'contract'):
+                    # with a single operand the translator already treats the result as a possible view
+                    cands = [lambda: ('ij,jk->ik', A(), A()), lambda: ('ij,j->i', A(), V()), lambda: ('ij,ij->', A(), A())]
+                res = _probe_call(fn, cands)
+            else:
+                res = []
+                rng = np.random.default_rng(0)
+                recvs = [A, V, lambda: rng, lambda: np.polynomial.chebyshev.Chebyshev(V()),
+                         lambda: np.polynomial.polynomial.Polynomial(V())]
+                for mk in recvs:
+                    r0 = mk()
+                    if not hasattr(r0, name):
+                        continue
+                    mcands = [lambda: (mk(),), lambda: (mk(), 0), lambda: (mk(), A()), lambda: (mk(), V()), lambda: (mk(), 3),
+                              lambda: (mk(), np.polynomial.polynomial.Polynomial)]
+                    res += _probe_call(lambda recv, *a: getattr(recv, name)(*a), mcands)
+            for label, prob in res:
+                nprobe += 1
+                ok_any = True
+                if R is not None:
+                    R.add_distinct(('table', kind, name, layout, label))
+                if prob:
+                    bad.append(dict(what=f'translator table: {name} is classified {kind} but {prob} (operands {label}, layout {layout})',
+                                    input=dict(table_entry=name, kind=kind, layout=layout, operands=label)))
+        if not ok_any:
+            unprobed.append(name)
+    if R is not None:
+        R.corr.append(dict(name='classification tables: fresh / no-identity entries the translation relied on, called directly',
+                           cases=nprobe, mismatches=len(bad),
+                           comparison='np.shares_memory of every result array with every operand array, operand bytes / shape '
+                                      '/ strides before and after; C, Fortran, strided and size-1 operands',
+                           distribution=dict(entries_used=len(g.used), entries_probed=len(g.used) - len(unprobed),
+                                             unprobed=unprobed),
+                           first_mismatches=[b['what'] for b in bad[:5]]))
+    return bad
 
 
 def correspondence(R, ctx):
@@ -601,8 +837,13 @@ def correspondence(R, ctx):
                                                   escapes=r['bad_escapes'], unknown=r['unknown'][:3]) for r in static_bad][:20],
                         documented_exceptions_seen=[dict(name=r['name'], flags=r['flags'], writes=r['writes'], escapes=r['escapes'])
                                                     for r in rep if r['writes'] or r['escapes']]))
-    seeds = (1, 2, 3) if ctx['thorough'] else (1,)
+    # seed 1: every recipe is known to run (a recipe that raises there is a harness error); the other seeds derive from
+    # VERIF_SEED (integer cores may then make a LAPACK routine raise: tolerated, the arguments are still compared)
+    base = 2 + ctx['seed'] % 100003
+    seeds = (1, base, base + 1, base + 2) if ctx['thorough'] else (1, base)
     fails, rerr, ncalls, dist, uncovered, skipped = footprint(R, ctx, seeds=seeds)
+    if uncovered:
+        rerr.append(dict(what=f'exported functions without a successful call: {uncovered}', recipe_error=True))
     dist['uncovered_exported_functions'] = uncovered
     dist['skipped'] = skipped
     dist['recipe_errors'] = [e['what'] for e in rerr][:20]
@@ -615,7 +856,9 @@ def correspondence(R, ctx):
         R.samples.append(dict(stream='footprint', violation=fails[0]['what'], input=fails[0]['input']))
     else:
         R.samples.append(dict(stream='footprint', input=dict(function='truncate', layout='S'), observed='no write, no alias'))
+    tb = table_probes(R, ctx)
     _GEN['fails'] = fails
+    _GEN['table_bad'] = tb
     _GEN['static_bad'] = static_bad
     return fails
 
@@ -630,7 +873,8 @@ def search(R, ctx, deep, hints):
         sb = _GEN.get('static_bad') or []
         if sb and not ctx['thorough']:
             names = {r['name'] for r in sb}      # look where the skeleton says something is wrong
-        f2, _, n, _, _, _ = footprint(None, ctx, names=names, seeds=(4, 5, 6, 7) if ctx['thorough'] else (4, 5))
+        b2 = 11 + ctx['seed'] % 99991
+        f2, _, n, _, _, _ = footprint(None, ctx, names=names, seeds=tuple(b2 + k for k in range(4 if ctx['thorough'] else 2)))
         fails += f2
     out = []
     seen = set()
